@@ -10,6 +10,11 @@
 (* extend, splice and re-sign.  Implementation layer : Run(o) = what the receive path of overlay o  *)
 (* does with the datagram that arrives (one action per handler dispatch).                           *)
 (*                                                                                                  *)
+(* Histories : book = the verified-peer table as "key lives at these addresses"; every delivery has  *)
+(* a source address; Acquaint = a key proved itself before the window; a rejected datagram changes   *)
+(* nothing (RejectInert), a valid one only the entry of the key that signed it (BookLegit).          *)
+(* Deviation constants EarlyBook / TrustSource switch two history-dependent defects on (controls).   *)
+(*                                                                                                  *)
 (* The table ShippedAuthenticated below is written BY HAND from the protocol (which messages the    *)
 (* senders sign), not derived from the decorators found on the handlers.                            *)
 EXTENDS Naturals, FiniteSets, TLC
@@ -28,7 +33,13 @@ CONSTANTS Overlays,       \* overlay classes that can be loaded on the receiving
           MaxDeliver,     \* bound on deliveries (Run or Drop) in one behaviour
           WithInject,     \* FALSE switches the Inject action off (keeps the two-datagram splice instance small)
           CheckSig,       \* TRUE = the code as it should be. FALSE = deviation: validity check deleted
-          CoverAll        \* TRUE = signature verified over everything. FALSE = deviation: prefix + msg id not covered
+          CoverAll,       \* TRUE = signature verified over everything. FALSE = deviation: prefix + msg id not covered
+          Addrs,          \* source addresses a datagram can arrive from / a verified-peer entry can point to
+          MaxAcq,         \* bound on acquaintances made before the window of observation (history)
+          EarlyBook,      \* FALSE = as it should be. TRUE = deviation: the verified-peer entry of the carried key is
+                          \*   updated with the source address BEFORE the signature verdict is asserted
+          TrustSource     \* FALSE = as it should be. TRUE = deviation: a signature that verifies under the key of the
+                          \*   peer already known at the source address is accepted (identity still = carried key)
 
 NoKey    == "nokey"      \* no parsable key at byte 23
 NoPrefix == "p?"         \* not the prefix of any known overlay / too short
@@ -100,22 +111,54 @@ VARIABLES cur,        \* the datagram that is about to arrive
           signed,     \* history : <<key, content>> pairs signed with the private half of key
           invoked,    \* history : handler invocations [o, msgid, peer, d]
           verified,   \* [Overlays -> SUBSET AllKeys] : keys that became verified peers of overlay o
-          ndel        \* number of deliveries so far
-vars == <<cur, inflight, muts, seen, signed, invoked, verified, ndel>>
+          ndel,       \* number of deliveries so far
+          book,       \* [Overlays -> [AllKeys -> SUBSET Addrs]] : Network.verified_peers as "key lives at these
+                      \*   addresses" (Peer.addresses of the verified-peer entry; {} = no entry / no address)
+          acq         \* history : <<o, key, addr>> acquaintances made before the window of observation
+vars == <<cur, inflight, muts, seen, signed, invoked, verified, ndel, book, acq>>
 
+NoBook == [k \in AllKeys |-> {}]
 Init == /\ cur = Blank /\ inflight = FALSE /\ muts = 0 /\ seen = {} /\ signed = {}
         /\ invoked = {} /\ verified = [o \in Overlays |-> {}] /\ ndel = 0
+        /\ book = [o \in Overlays |-> NoBook] /\ acq = {}
+
+(* state of the verified-peer table that the acquaintances alone account for *)
+AcqBook(o)     == [k \in AllKeys |-> {a \in Addrs : <<o, k, a>> \in acq}]
+AcqVerified(o) == {k \in AllKeys : \E a \in Addrs : <<o, k, a>> \in acq}
 
 (* what the property demands *)
 SigValid(d) == /\ d.sig.kind = "sig" /\ d.key \in Keys
                /\ d.sig.signer = d.key
                /\ d.sig.covers = ContentOf(d)
 
-(* what the receive path checks (equal to SigValid unless a deviation constant is switched on) *)
-ImplValid(d) == IF ~CheckSig THEN d.key \in Keys
-                ELSE /\ d.sig.kind = "sig" /\ d.key \in Keys /\ d.sig.signer = d.key
-                     /\ IF CoverAll THEN d.sig.covers = ContentOf(d)
-                        ELSE d.sig.covers.key = d.key /\ d.sig.covers.body = d.body
+(* what the receive path of overlay o checks for a datagram that arrives from address a (equal to SigValid *)
+(* unless a deviation constant is switched on; in particular independent of o, a and of the history)        *)
+ImplValid(d, o, a) ==
+  IF ~CheckSig THEN d.key \in Keys
+  ELSE \/ /\ d.sig.kind = "sig" /\ d.key \in Keys /\ d.sig.signer = d.key
+          /\ IF CoverAll THEN d.sig.covers = ContentOf(d)
+             ELSE d.sig.covers.key = d.key /\ d.sig.covers.body = d.body
+       \/ /\ TrustSource                      \* deviation: the key of whoever is known at the source address
+          /\ d.sig.kind = "sig" /\ d.key \in Keys /\ d.sig.covers = ContentOf(d)
+          /\ \E k \in Keys : a \in book[o][k] /\ d.sig.signer = k
+
+(* History before the window of observation: key k proved possession of its private half to overlay o from   *)
+(* address a (an earlier, honest introduction).  Environment action; only at the very beginning.             *)
+Acquaint(o, k, a) ==
+  /\ ~inflight /\ seen = {} /\ ndel = 0 /\ Cardinality(acq) < MaxAcq
+  /\ k \in Honest \cup Attacker /\ a \in Addrs /\ <<o, k, a>> \notin acq
+  /\ acq' = acq \cup {<<o, k, a>>}
+  /\ book' = [book EXCEPT ![o][k] = @ \cup {a}]
+  /\ verified' = [verified EXCEPT ![o] = @ \cup {k}]
+  /\ UNCHANGED <<cur, inflight, muts, seen, signed, invoked, ndel>>
+
+(* The receiving node restarts: everything learned inside the window is forgotten, the acquaintances are     *)
+(* made again (the driver builds a new receiving node after a delivery that touched its state).             *)
+Restart ==
+  /\ ~inflight /\ ndel < MaxDeliver
+  /\ book' = [o \in Overlays |-> AcqBook(o)]
+  /\ verified' = [o \in Overlays |-> AcqVerified(o)]
+  /\ UNCHANGED <<cur, inflight, muts, seen, signed, invoked, ndel, acq>>
 
 (* EZPackOverlay.ezr_pack / _ez_pack on an honest (or attacker owned) node : sign everything *)
 Send(o, k, m, b) ==
@@ -126,7 +169,7 @@ Send(o, k, m, b) ==
          d == [prefix |-> c.prefix, msgid |-> m, key |-> k, body |-> b, sig |-> SigOf(k, c)]
      IN /\ cur' = d /\ seen' = seen \cup {d} /\ signed' = signed \cup {<<k, c>>}
   /\ inflight' = TRUE /\ muts' = 0
-  /\ UNCHANGED <<invoked, verified, ndel>>
+  /\ UNCHANGED <<invoked, verified, ndel, book, acq>>
 
 (* the adversary fabricates a datagram from scratch: no signature, noise, or a signature made with one of *)
 (* its own keys over the content itself or over a content it has seen                                      *)
@@ -136,7 +179,7 @@ Inject(d) ==
   /\ d.sig \in InjectSigs(ContentOf(d))
   /\ signed' = IF d.sig.kind = "sig" THEN signed \cup {<<d.sig.signer, d.sig.covers>>} ELSE signed
   /\ cur' = d /\ seen' = seen \cup {d} /\ inflight' = TRUE /\ muts' = 0
-  /\ UNCHANGED <<invoked, verified, ndel>>
+  /\ UNCHANGED <<invoked, verified, ndel, book, acq>>
 
 (* the possible results of one mutation of datagram s (S = what the adversary has seen) *)
 MutSet(name, s, S) ==
@@ -167,7 +210,7 @@ Mutate(name, s, t) ==
   /\ t \in MutSet(name, s, seen)
   /\ cur' = t /\ inflight' = TRUE
   /\ signed' = IF name = "Resign" THEN signed \cup {<<t.sig.signer, t.sig.covers>>} ELSE signed
-  /\ UNCHANGED <<seen, invoked, verified, ndel>>
+  /\ UNCHANGED <<seen, invoked, verified, ndel, book, acq>>
 
 Sources == IF inflight THEN {cur} ELSE seen
 Noop            == \E s \in Sources : \E t \in MutSet("Noop", s, seen) : Mutate("Noop", s, t)   \* plain replay
@@ -185,39 +228,57 @@ SpliceBody      == \E s \in Sources : \E t \in MutSet("SpliceBody", s, seen) : M
 SpliceSig       == \E s \in Sources : \E t \in MutSet("SpliceSig", s, seen) : Mutate("SpliceSig", s, t)
 
 (* Community.on_packet of overlay o (any overlay on the endpoint: replay into another overlay) hands the   *)
-(* datagram to decode_map[msgid]; the handler proper runs with `peer`; it may add that peer as verified.   *)
-Run(o, peer, newv) ==
-  /\ inflight
+(* datagram, which arrived from source address a (any address: the adversary may spoof it), to             *)
+(* decode_map[msgid]; the handler proper runs with `peer`; it may add that peer as verified.  nb = the      *)
+(* verified-peer table of o afterwards: a valid datagram may change the entry of the key that signed it     *)
+(* (source address added / entry re-pointed / addresses claimed in the signed payload), nothing else.       *)
+Run(o, peer, newv, a, nb) ==
+  /\ inflight /\ a \in Addrs
   /\ cur.prefix = PrefixOf[o] /\ cur.msgid # NoMsg
+  /\ nb \in [AllKeys -> SUBSET Addrs]
   /\ IF cur.msgid \in Authenticated[o]
-     THEN /\ ImplValid(cur) /\ peer = cur.key /\ newv \subseteq {cur.key}
-     ELSE newv = {}      \* handlers of unauthenticated messages get an address, never a verified peer
-  /\ invoked' = invoked \cup {[o |-> o, msgid |-> cur.msgid, peer |-> peer, d |-> cur]}
+     THEN /\ ImplValid(cur, o, a) /\ peer = cur.key /\ newv \subseteq {cur.key}
+          /\ \A k \in AllKeys \ {cur.key} : nb[k] = book[o][k]
+     ELSE /\ newv = {}      \* handlers of unauthenticated messages get an address, never a verified peer
+          /\ nb = book[o]
+  /\ invoked' = invoked \cup {[o |-> o, msgid |-> cur.msgid, peer |-> peer, d |-> cur, n |-> ndel, src |-> a,
+                               entry |-> nb[cur.key]]}
   /\ verified' = [verified EXCEPT ![o] = @ \cup newv]
-  /\ inflight' = FALSE /\ ndel' = ndel + 1 /\ UNCHANGED <<cur, muts, seen, signed>>
+  /\ book' = [book EXCEPT ![o] = nb]
+  /\ inflight' = FALSE /\ ndel' = ndel + 1 /\ UNCHANGED <<cur, muts, seen, signed, acq>>
 
-(* the datagram is dropped (other prefix, unknown id, failed check, or the handler declines) *)
-Drop(o) ==
-  /\ inflight /\ inflight' = FALSE /\ ndel' = ndel + 1
-  /\ UNCHANGED <<cur, muts, seen, signed, invoked, verified>>
+(* the datagram, arriving from address a, is dropped (other prefix, unknown id, failed check, or the        *)
+(* handler declines): a rejected datagram leaves the verified-peer table alone                              *)
+Drop(o, a) ==
+  /\ inflight /\ inflight' = FALSE /\ ndel' = ndel + 1 /\ a \in Addrs
+  /\ book' = IF /\ EarlyBook      \* deviation: "known peer -> add_address(source)" placed above the verdict
+                /\ cur.prefix = PrefixOf[o] /\ cur.msgid \in Authenticated[o] /\ cur.key \in Keys
+                /\ book[o][cur.key] # {}
+             THEN [book EXCEPT ![o][cur.key] = @ \cup {a}]
+             ELSE book
+  /\ UNCHANGED <<cur, muts, seen, signed, invoked, verified, acq>>
 
 SendAny   == \E o \in Overlays, k \in Keys, m \in MsgIds, b \in Bodies : Send(o, k, m, b)
 InjectAny == \E c \in [prefix : Prefixes, msgid : MsgIds, key : AllKeys, body : Bodies] : \E g \in InjectSigs(c) :
                Inject([prefix |-> c.prefix, msgid |-> c.msgid, key |-> c.key, body |-> c.body, sig |-> g])
-RunAny    == \E o \in Overlays, p \in AllKeys, nv \in SUBSET AllKeys : Run(o, p, nv)
-DropAny   == \E o \in Overlays : Drop(o)
+RunAny    == \E o \in Overlays, p \in AllKeys, nv \in SUBSET AllKeys, a \in Addrs, entry \in SUBSET Addrs :
+               Run(o, p, nv, a, [book[o] EXCEPT ![cur.key] = entry])
+DropAny   == \E o \in Overlays, a \in Addrs : Drop(o, a)
+AcqAny    == \E o \in Overlays, k \in Keys, a \in Addrs : Acquaint(o, k, a)
 
 Next == \/ SendAny
         \/ InjectAny
         \/ Noop \/ FlipPrefix \/ FlipMsgId \/ FlipKey \/ SubstKeyKeepSig \/ FlipBody \/ FlipSig
         \/ Truncate \/ StripAuth \/ Extend \/ Resign \/ SpliceBody \/ SpliceSig
         \/ RunAny \/ DropAny
+        \/ AcqAny \/ Restart
 
 Spec == Init /\ [][Next]_vars
 
 (* ------------------------------------- properties --------------------------------------------- *)
 TypeOK == /\ cur \in Datagram /\ inflight \in BOOLEAN /\ muts \in 0..MaxMut
           /\ seen \subseteq Datagram /\ ndel \in Nat /\ \A o \in Overlays : verified[o] \subseteq AllKeys
+          /\ book \in [Overlays -> [AllKeys -> SUBSET Addrs]] /\ acq \subseteq Overlays \X Keys \X Addrs
 
 (* the adversary model is sound: a signature by an honest key exists only over what that key signed *)
 Unforgeable == \A d \in (IF inflight THEN {cur} ELSE {}) \cup seen :
@@ -228,8 +289,21 @@ HonestSignOnlyBySend == \A p \in signed : p[1] \in Honest =>
 AuthOnly == \A i \in invoked : i.msgid \in Authenticated[i.o] => SigValid(i.d) /\ i.peer = i.d.key
 
 NoForgedVerified == \A o \in Overlays : \A k \in verified[o] :
-                      \E i \in invoked : /\ i.o = o /\ i.d.key = k /\ i.peer = k
-                                         /\ <<k, ContentOf(i.d)>> \in signed
+                      \/ k \in AcqVerified(o)
+                      \/ \E i \in invoked : /\ i.o = o /\ i.d.key = k /\ i.peer = k
+                                            /\ <<k, ContentOf(i.d)>> \in signed
+
+(* "nobody can make a node attribute ... a verified-peer entry to a key whose private half they do not hold": *)
+(* every address in the entry of key k was put there by an acquaintance of k or by the handler of an          *)
+(* authenticated message with a valid signature of k over everything (a content that k really signed)         *)
+BookLegit == \A o \in Overlays : \A k \in Keys : \A a \in book[o][k] :
+               \/ <<o, k, a>> \in acq
+               \/ \E i \in invoked : /\ i.o = o /\ i.d.key = k /\ i.msgid \in Authenticated[o] /\ a \in i.entry
+                                     /\ SigValid(i.d) /\ <<k, ContentOf(i.d)>> \in signed
+BookNoKeyEmpty == \A o \in Overlays : book[o][NoKey] = {}
+
+(* a delivery that runs no handler (a rejected datagram) changes nothing the node believes about its peers *)
+RejectInert == [][(inflight /\ ~inflight' /\ invoked' = invoked) => (book' = book /\ verified' = verified)]_vars
 
 OverlaySeparation == \A i \in invoked : i.msgid \in Authenticated[i.o] =>
                        i.d.sig.kind = "sig" /\ i.d.sig.covers.prefix = PrefixOf[i.o]
